@@ -179,4 +179,10 @@ func init() {
 		"	if from == to {\n		return graph.ErrCyclicDependency\n	}\n", "", "C16.R3.self")
 	mut("C16", "one-to-many create skips a self edge instead of refusing it", "core/pkg/distribution/ontology/writer_dag.go",
 		"		if rel.To == from {\n			return graph.ErrCyclicDependency\n		}", "		if rel.To == from {\n			continue\n		}", "C16.R3.self")
+
+	// ---------------- C07.R2 connective
+	mut("C07", "iterator acknowledgements are merged with AND across nodes", "core/pkg/distribution/framer/iterator/synchronizer.go",
+		"	if res.Ack {\n		s.cycle.res.Ack = true\n	}", "	if !res.Ack {\n		s.cycle.res.Ack = false\n	}", "C07.R2.sync")
+	mut("C07", "the engine reports success only when every channel iterator succeeded", "cesium/iterator_stream.go",
+		"func (s *streamIterator) execWithoutResponse(f func(i *unary.Iterator) bool) (ok bool) {\n	for _, i := range s.internal {\n		if f(i) {\n			ok = true\n		}\n	}\n	return\n}", "func (s *streamIterator) execWithoutResponse(f func(i *unary.Iterator) bool) (ok bool) {\n	ok = len(s.internal) > 0\n	for _, i := range s.internal {\n		if !f(i) {\n			ok = false\n		}\n	}\n	return\n}", "C07.R2.sync")
 }
